@@ -1,0 +1,117 @@
+//! Hooks for the verification harness (only with `--cfg petrichorit_des_verif`).
+//!
+//! Everything in here is read-only with respect to the queue, except for the
+//! constructor that exposes the allocator page size.
+
+use super::{alloc::CQueueLLAllocatorInner, linked_list::DualLinkedList, CQueue};
+use std::{collections::VecDeque, time::Duration};
+
+pub use super::alloc::{verif_set_alloc_observer, VerifAllocEvent};
+
+/// A structural snapshot of a [`CQueue`].
+#[derive(Debug, Clone, PartialEq, Eq, Hash)]
+pub struct VerifSnapshot {
+    pub n: usize,
+    pub head: usize,
+    pub t_current: Duration,
+    pub t0: Duration,
+    pub t1: Duration,
+    pub len: usize,
+    /// `(time, id)` of the entries of the zero-delay bucket, front to back.
+    pub zero: Vec<(Duration, usize)>,
+    /// `(time, id)` of the entries of every indexed bucket, front to back.
+    pub buckets: Vec<Vec<(Duration, usize)>>,
+}
+
+impl<E> CQueue<E> {
+    /// Creates a queue whose allocator uses pages of `page_size` bytes
+    /// (a power of two).
+    #[must_use]
+    pub fn verif_with_page_size(n: usize, t: Duration, page_size: usize) -> Self {
+        let t_all = t.as_nanos() * n as u128;
+        let mut alloc = Box::new(CQueueLLAllocatorInner::with_page_size(page_size));
+        Self {
+            n,
+            t_nanos: t.as_nanos(),
+            t,
+            zero_event_bucket: VecDeque::with_capacity(64),
+            buckets: std::iter::repeat_with(|| DualLinkedList::new(alloc.handle()))
+                .take(n)
+                .collect(),
+            head: 0,
+            t_current: Duration::ZERO,
+            t0: Duration::ZERO,
+            t1: t,
+            t_all,
+            alloc,
+            event_id: 0,
+            len: 0,
+        }
+    }
+
+    /// Walks every bucket and checks the structural invariants of the queue.
+    ///
+    /// # Errors
+    ///
+    /// Returns a description of the first broken invariant.
+    pub fn verif_check_invariants(&self) -> Result<VerifSnapshot, String> {
+        let mut total = 0usize;
+        let mut zero = Vec::with_capacity(self.zero_event_bucket.len());
+        for (_, time, id) in &self.zero_event_bucket {
+            if *time != self.t_current {
+                return Err(format!(
+                    "zero bucket holds an event for {time:?} but the queue time is {:?}",
+                    self.t_current
+                ));
+            }
+            zero.push((*time, *id));
+        }
+        total += zero.len();
+
+        if self.buckets.len() != self.n {
+            return Err(format!(
+                "{} buckets exist but n = {}",
+                self.buckets.len(),
+                self.n
+            ));
+        }
+        let mut buckets = Vec::with_capacity(self.n);
+        for (i, bucket) in self.buckets.iter().enumerate() {
+            let entries = bucket
+                .verif_walk()
+                .map_err(|e| format!("bucket {i}: {e}"))?;
+            for (time, id) in &entries {
+                if *time < self.t_current {
+                    return Err(format!(
+                        "bucket {i}: event {id} at {time:?} is older than the queue time {:?}",
+                        self.t_current
+                    ));
+                }
+                let expected = ((time.as_nanos() % self.t_all) / self.t_nanos) as usize % self.n;
+                if expected != i {
+                    return Err(format!(
+                        "bucket {i}: event {id} at {time:?} belongs to bucket {expected}"
+                    ));
+                }
+            }
+            total += entries.len();
+            buckets.push(entries);
+        }
+        if total != self.len {
+            return Err(format!(
+                "len() reports {} but {} events are stored",
+                self.len, total
+            ));
+        }
+        Ok(VerifSnapshot {
+            n: self.n,
+            head: self.head,
+            t_current: self.t_current,
+            t0: self.t0,
+            t1: self.t1,
+            len: self.len,
+            zero,
+            buckets,
+        })
+    }
+}
